@@ -3,13 +3,20 @@ import os, sys
 HERE = os.path.dirname(os.path.dirname(os.path.abspath(__file__)))
 sys.path.insert(0, HERE)
 from vlib import build
-DRIVERS = [("drv_jitalloc", "asan")]
+DRIVERS = [("drv_jitalloc", "asan"), ("drv_emit", "asan"), ("drv_codec", "asan"), ("drv_containers", "asan"), ("drv_constpool", "asan"),
+           ("drv_sections", "asan"), ("drv_labels", "asan"), ("drv_emit_a64", "asan"), ("drv_threads", "tsan"), ("drv_threads", "asan"), ("drv_oom", "asan")]
 def main():
     for fl in ("asan", "tsan", "plain"):
         build.build_lib(fl)
+    from vlib import isadb
+    isadb.x86_forms()
     for name, fl in DRIVERS:
         if os.path.exists(os.path.join(HERE, "drv", name + ".cpp")):
-            build.build_driver(name, fl)
+            try:
+                build.build_driver(name, fl)
+            except build.BuildError as e:
+                # drivers with special link flags are built by their checks; setup only warms the cache
+                print("setup: %s/%s not prebuilt (%s)" % (name, fl, str(e)[:120]))
     print("setup ok")
 if __name__ == "__main__":
     main()
